@@ -133,6 +133,26 @@ def run(tier):
             cells = corpus.rand_braille(rng, rng.choice([1, 8, 30, 99, 100]), dots_io=False)
             ops.append("HYP %s 1 %s" % (corpus.tpath(hl), common.wide(cells)))
         hyp_cases.append(common.Case("c02-h%d" % hi, ["HOOK exact 1", "HOOK budget 3000000"], ops, {"table": hl, "kind": "hyph"}))
+    # generated dictionaries, among them patterns with a digit in front of the leading '.' (a contribution at offset -1:
+    # the merge loop must not go below the first element of `hyphens` - F5, repaired; seeded change C02-H dropped the bound),
+    # words at the very start of the caller's array
+    from . import C17 as _C17
+    from .. import hyphlib as _H
+    for gi in range(6 if tier == "quick" else 120):
+        g = _C17.gen_dict(rng, ["leaddigit", "normal", "leaddigit"][gi % 3])
+        pats = _H.parse_dict(g["bytes"]) or []
+        tbl = _H.letter_table(g["lowers"], g["upper_of"], [45], [46, 39], "c02g%d.dic" % gi)
+        ops = []
+        for _ in range(12 if tier == "quick" else 30):
+            w = _C17.gen_word(rng, g, pats)[:rng.choice([3, 8, 30, 99])]
+            ops.append("HYP c02g%d.utb 0 %s" % (gi, common.wide(w)))
+        for l, _d in pats[:8]:
+            core = [c for c in l if c != _H.DOT]
+            if core:
+                ops.append("HYP c02g%d.utb 0 %s" % (gi, common.wide(core)))
+                ops.append("HYP c02g%d.utb 0 %s" % (gi, common.wide(core + [rng.choice(g["lowers"])])))
+        hyp_cases.append(common.Case("c02-hg%d" % gi, ["HOOK exact 1", "HOOK budget 3000000", "TBL c02g%d.dic %s" % (gi, common.hexbytes(g["bytes"])),
+                                                        "TBL c02g%d.utb %s" % (gi, common.hexbytes(tbl))], ops, {"table": "generated dictionary", "kind": "hyph"}))
     # histories with the scratch log
     hist_cases = []
     for hi in range(10 if tier == "quick" else 150):
